@@ -198,7 +198,24 @@ class Download(Client):
         want = max(0, min(self.w, remaining) * r - len(self.pending))
         burst = self.pending + (self.recv_some(want) if want else [])
         self.pending = []
-        final_seen = False
+        self.absorb(burst)
+        inputs = self.policy(self, burst) if self.policy else [("ack", self.expected - 1)]
+        for inp in inputs:
+            self.send_input(inp)
+            if inp[0] == "wait":
+                # whatever the worker retransmits when its timeout fires belongs right here in the trace
+                t0 = time.time()
+                more = self.recv_some(min(self.w, self.nb - (self.expected - 1)) * r, quiet=inp[1] + 1.5)
+                self.retransmit_after = time.time() - t0 - (QUIET if len(more) < min(self.w, self.nb - (self.expected - 1)) * r else 0)
+                self.absorb(more)
+        if self.expected - 1 >= self.nb and (not self.policy or getattr(self, "policy_done", True)):
+            self.finish()
+        elif inputs and inputs[-1][0] == "err":
+            self.finish()
+        elif self.steps > 4 * self.nb + 50:
+            self.finish()
+
+    def absorb(self, burst):
         for p in burst:
             if p["k"] == "data":
                 i = self.slice_index(p["n"], p["payload"])
@@ -207,27 +224,10 @@ class Download(Client):
                 if p["n"] == self.expected % M:
                     self.got += p["payload"]
                     self.expected += 1
-                    if len(p["payload"]) < self.blk:
-                        final_seen = True
             elif p["k"] == "error":
                 self.log(e="out", k="err", code=p["code"])
             else:
                 self.log(e="out", k=p["k"])
-        inputs = self.policy(self, burst) if self.policy else [("ack", self.expected - 1)]
-        for inp in inputs:
-            self.send_input(inp)
-            if inp[0] == "wait":
-                # collect whatever the worker retransmits when its timeout fires
-                t0 = time.time()
-                more = self.recv_some(min(self.w, self.nb - (self.expected - 1)) * r, quiet=inp[1] + 1.5)
-                self.pending += more
-                self.retransmit_after = time.time() - t0
-        if self.expected - 1 >= self.nb and (not self.policy or getattr(self, "policy_done", True)):
-            self.finish()
-        elif inputs and inputs[-1][0] == "err":
-            self.finish()
-        elif self.steps > 4 * self.nb + 50:
-            self.finish()
 
     def finish(self):
         extra = self.recv_some(4, quiet=QUIET)
